@@ -40,7 +40,7 @@ def run_one(pid: str, shard: dict, workdir: str, idx: int, timeout: float) -> di
     t0 = time.time()
     try:
         p = subprocess.run(
-            [env.PY, "-X", "faulthandler", "-m", "vf.worker", pid, sp, op],
+            [env.PY, "-X", "faulthandler", *[str(x) for x in shard.get("_pyflags", [])], "-m", "vf.worker", pid, sp, op],
             env=e,
             cwd=env.VERIF,
             capture_output=True,
@@ -82,8 +82,14 @@ def merge(docs: list[dict]) -> dict:
         "shard_walls": [],
     }
     distinct = set()
+    # an import failure under a variant interpreter configuration is a verdict only when ordinary shards of the
+    # same run imported the package and evaluated something (otherwise the run says nothing about the variant)
+    ordinary_ok = any(d.get("status") == "ok" and not d.get("variant_import_failed") and d.get("evaluations", 0) > 0 and not (d.get("_shard") or {}).get("_variant") for d in docs)
     for d in docs:
         m["shard_walls"].append(d.get("_wall"))
+        if d.get("variant_import_failed") and not ordinary_ok:
+            m["inconclusive"].append(f"shard {d.get('_shard', {}).get('_name')}: package not importable and no ordinary shard to compare with")
+            continue
         if d.get("status") != "ok":
             m["inconclusive"].append(
                 f"shard {d.get('_shard', {}).get('_name')} {d.get('status')}: {str(d.get('error'))[-600:]}"
@@ -188,8 +194,14 @@ def main(argv=None):
                 # ... and once in an interpreter that turns every warning into an exception (-W error): verdicts
                 # must not depend on the warning configuration
                 cw = json.loads(json.dumps(src))
-                cw.update({"_env": {"PYTHONWARNINGS": "error"}, "_prelude": False, "_reach": False, "_name": "warnings-as-errors-of-" + str(src.get("_name"))})
+                cw.update({"_variant": "warnings-as-errors", "_env": {"PYTHONWARNINGS": "error"}, "_prelude": False, "_reach": False, "_name": "warnings-as-errors-of-" + str(src.get("_name"))})
                 shards.append(cw)
+                # ... and once in an interpreter as a deployment may run it: -OO (assert statements and docstrings
+                # stripped) under the C locale without UTF-8 mode (default text encoding ASCII)
+                co = json.loads(json.dumps(src))
+                co.update({"_variant": "optimised-c-locale", "_pyflags": ["-OO"], "_env": {"LC_ALL": "C", "LANG": "C", "PYTHONCOERCECLOCALE": "0", "PYTHONUTF8": "0"}, "_prelude": True, "_reach": False,
+                           "_name": "optimised-c-locale-of-" + str(src.get("_name"))})
+                shards.append(co)
         if not replay and meta.get("prelude", True):
             for i_, s_ in enumerate(shards):
                 if i_ % 2 == 1 and "_prelude" not in s_:
